@@ -16,7 +16,7 @@ RULE = (
     "the distinct count is within 1 of the threshold."
 )
 ASSUMPTIONS = [
-    "with two IsUnique checks a key registered by a row that the later check rejected is unjudged; the end-of-data verdict of a run aborted in raise mode is not judged",
+    "the end-of-data verdict of a run aborted in raise mode is not judged",
 ]
 OPS = ["<", "<=", "==", "!=", ">=", ">"]
 MODES = ["yield", "continue", "raise"]
@@ -65,14 +65,39 @@ def gen_case(rng):
     return model, rows
 
 
+class Collector(object):
+    """Stands in for ctx while an observation is compared with one of two models."""
+
+    def __init__(self, ctx, forward_counts):
+        self.ctx, self.forward, self.violations = ctx, forward_counts, []
+
+    def count(self, name, n=1):
+        if self.forward:
+            self.ctx.count(name, n)
+
+    def unjudged(self, zone):
+        if self.forward:
+            self.ctx.unjudged(zone)
+
+    def violation(self, key, case, what, expected=None, observed=None):
+        self.violations.append((key, case, what, expected, observed))
+
+
 def check_case(ctx, model, rows, mode):
     from cutplace import errors
 
     case = {"cid": model.to_json(), "rows": rows, "mode": mode}
     expected = RM.expected_run(model, rows)
+    strict = False
     if expected is None:
-        ctx.unjudged("key registered by a row that a later-declared check rejected")
-        return
+        # a later row uses a key that was only seen in a row which a later-declared check rejected: by the statement
+        # ("an earlier ACCEPTED row") it is no duplicate
+        expected = RM.expected_run(model, rows, rollback=True)
+        strict = True
+        ctx.count("runs.with-key-of-a-rejected-row")
+        if expected is None:
+            ctx.unjudged("row the field model does not judge")
+            return
     try:
         cid = gen.load_cid(model)
     except errors.InterfaceError as error:
@@ -93,6 +118,20 @@ def check_case(ctx, model, rows, mode):
             near = True
     ctx.case(case, dup or near)
     ctx.count("runs.%s" % mode)
+    first = Collector(ctx, True)
+    compare(first, errors, case, model, obs, expected, mode)
+    if first.violations and strict:
+        second = Collector(ctx, False)
+        compare(second, errors, case, model, obs, RM.expected_run(model, rows, sticky=True), mode)
+        if not second.violations:
+            ctx.violation("C05:isunique:duplicate-of-rejected-row", case, "a row was rejected as duplicate of a row that a later-declared check had rejected (its key stays registered)",
+                          expected=first.violations[0][3], observed=first.violations[0][4])
+            return
+    for v in first.violations:
+        ctx.violation(v[0], v[1], v[2], expected=v[3], observed=v[4])
+
+
+def compare(ctx, errors, case, model, obs, expected, mode):
     exp_items = expected["items"]
     if mode == "continue":
         exp_items = [e for e in exp_items if e[0] == "row"]
